@@ -820,6 +820,41 @@ func (e *Env) evalCall(n *ast.CallExpr) (Val, bool) {
 				return e.fail("as: target must be a pointer type")
 			}
 			return Val{K: KPtr, Typ: t, P: &Ptr{Kind: PObj, Base: a.Fs[1].T, Elem: pt.Elem()}}, true
+		case "str":
+			// str(b): the string made of the bytes of slice b
+			a, ok := e.eval(n.Args[0])
+			if !ok {
+				return a, false
+			}
+			if a.K == KScalar && a.T.Sort == sStr {
+				return a, true
+			}
+			if a.K != KSlice {
+				return e.fail("str needs a byte slice")
+			}
+			return scalar(x.uf("bytes2str", sStr, a.Fs[0].T, a.Fs[1].T, a.Fs[2].T), types.Typ[types.String]), true
+		case "indexof":
+			if len(n.Args) != 2 {
+				return e.fail("indexof needs (s, sub)")
+			}
+			a, ok := e.eval(n.Args[0])
+			if !ok {
+				return a, false
+			}
+			b, ok := e.eval(n.Args[1])
+			if !ok {
+				return b, false
+			}
+			return scalar(app(sInt, "str.indexof", a.T, b.T, tZero), types.Typ[types.Int]), true
+		case "substr":
+			if len(n.Args) != 3 {
+				return e.fail("substr needs (s, from, to)")
+			}
+			vs, ok := e.evalArgs(n.Args)
+			if !ok {
+				return Val{}, false
+			}
+			return scalar(app(sStr, "str.substr", vs[0].T, vs[1].T, app(sInt, "-", vs[2].T, vs[1].T)), types.Typ[types.String]), true
 		case "hassuffix", "hasprefix", "contains":
 			// string theory: hassuffix(s, suffix), hasprefix(s, prefix), contains(s, sub)
 			if len(n.Args) != 2 {
